@@ -4,6 +4,15 @@ from rules import hayson
 
 def check(ctx):
     rep = ctx.rep
+    from rules import tz as _tzz
+    nz = _tzz.check_zone_names(ctx, rep)
+    rep.floor("zone-name table obligations (T-ZONES)", nz, 2)
+    from rules import tz as _tzs
+    nsf = _tzs.check_strftime(ctx, rep)
+    rep.floor("time-of-day text writers", nsf, 3)
+    from rules import hayson as _hc
+    ncc = _hc.check_casts(ctx, rep)
+    rep.floor("float casts / serialize_f64 sites in the Hayson writer", ncc, 2)
     from rules import tz as _tz
     _tz.check_utc_guard(ctx, rep)
     hayson.check_member_loop(ctx, rep)
